@@ -203,10 +203,9 @@ pub fn c16(h: &mut H) {
             let mut z = rp.clone();
             let e_new_prime = powm(&e_new, &pow2(t), &n);
             // recompute E_a, E_b for the new E' and re-derive E_a_1, E_b_1 from the honest E_a_2, E_b_2
-            let sq = Integer::from(&b - &a).sqrt();
-            let kk = pow2(40 + 128 + t / 2 + 1) * sq;
-            let aa = Integer::from(pow2(t) * &a) - &kk;
-            let bb = Integer::from(pow2(t) * &b) + &kk;
+            // decomposition points of Algorithm 8 (2^T a, 2^T b since the repair of F13)
+            let aa = Integer::from(pow2(t) * &a);
+            let bb = Integer::from(pow2(t) * &b);
             let e_a = divm(&e_new_prime, &powm(&g, &aa, &n), &n);
             let e_b = divm(&powm(&g, &bb, &n), &e_new_prime, &n);
             let ea2 = field(&rp["proof_of_tolerance"], "E_a_2");
@@ -215,9 +214,35 @@ pub fn c16(h: &mut H) {
             z["E_prime"] = iv(&e_new_prime);
             z["proof_of_tolerance"]["E_a_1"] = iv(&divm(&e_a, &ea2, &n));
             z["proof_of_tolerance"]["E_b_1"] = iv(&divm(&e_b, &eb2, &n));
+            // harness self-check: with the HONEST commitment as target the same construction reproduces the honest
+            // E_a_1, E_b_1 (otherwise the transplant below would be rejected for a trivial reason)
+            {
+                let e_hon = field(&rp, "E");
+                let ehp = powm(&e_hon, &pow2(t), &n);
+                let ea_h = divm(&ehp, &powm(&g, &aa, &n), &n);
+                let eb_h = divm(&powm(&g, &bb, &n), &ehp, &n);
+                let ok = divm(&ea_h, &ea2, &n) == field(&rp["proof_of_tolerance"], "E_a_1") && divm(&eb_h, &eb2, &n) == field(&rp["proof_of_tolerance"], "E_b_1");
+                h.expect(ok, "C16.transplant_selfcheck", "the harness' transplant construction does not reproduce the honest decomposition commitments (harness out of date?)", &[]);
+            }
             h.stat(&format!("C16.transplant.{}", nm));
             let v = rverify(h, &z, &g, &hh, &n, &a, &b);
             h.expect(!v.is_true(), "C16.transplant", &format!("sub-proofs transplanted onto a commitment to {} are accepted", nm), &[h.last()]);
+            // the same transplant with DEGENERATE proofs of square: F not invertible (0 or N), so that every
+            // power of F is 0 and the two recomputed commitments are 0 whatever E is; challenge = H("0" || "0")
+            for fdeg in [Integer::from(0), n.clone()] {
+                let mut z2 = z.clone();
+                let ch = sha_int("00");
+                for side in ["a", "b"] {
+                    let e1 = z2["proof_of_tolerance"][format!("E_{}_1", side)].clone();
+                    z2["proof_of_tolerance"][format!("proof_of_square_{}", side)] = json!({
+                        "E": e1, "F": iv(&fdeg),
+                        "proof_ss": {"challenge": iv(&ch), "d": iv(&Integer::from(1)), "d_1": iv(&Integer::from(1)), "d_2": iv(&Integer::from(1))}
+                    });
+                }
+                h.stat("C16.transplant_degenerate_square");
+                let v = rverify(h, &z2, &g, &hh, &n, &a, &b);
+                h.expect(!v.is_true(), "C16.transplant_degenerate_square", &format!("sub-proofs transplanted onto a commitment to {} are accepted with proofs of square whose F is not invertible", nm), &[h.last()]);
+            }
         }
         // single-field edits
         let mut lv = Vec::new();
